@@ -46,6 +46,8 @@ def hash_node(
             names = [child.arg]
         elif isinstance(child, (ast.FunctionDef, ast.AsyncFunctionDef)):
             names = [child.name]
+        elif isinstance(child, ast.Constant):
+            things_to_hash.append((type(child.value), repr(child.value)))  # 1, 1.0 and True differ
         else:
             things_to_hash.extend(
                 (key, value)
